@@ -45,6 +45,7 @@ type opT struct {
 	Resp string `json:"resp"`
 	Type string `json:"type"`
 	Out  string `json:"out"`
+	How  string `json:"how"` // Blacklist: "temp" | "perm" | "cidr"
 	Exp  *expT  `json:"exp"`
 }
 
@@ -193,6 +194,13 @@ func (r *runner) msg(o opT) (fw.Event, string, string) {
 			}
 			response = srvkit.HMAC(w.Cred(other).Secret, r.nonces[o.C][n-1])
 			ev["key"], ev["over"] = other, n
+		case "EmptyKey":
+			// what anybody who saw the challenge can compute: the HMAC under the empty key
+			if n < 1 {
+				return nil, "", "no challenge available (model and server disagree)"
+			}
+			response = srvkit.HMAC("", r.nonces[o.C][n-1])
+			ev["key"], ev["over"] = "empty", n
 		}
 		resp, err = c.Phase2(w.ClientID(o.ID), response, o.Type)
 	default:
@@ -260,10 +268,33 @@ func drive(env *fw.Env, b fw.Behaviour) *fw.Trace {
 			s.Ban(r.w.IP(o.C), time.Hour)
 			ev = fw.Event{"ev": "Env", "k": "Ban", "c": o.C, "id": "none"}
 		case "Blacklist":
-			if err := s.Blacklist(r.w.IP(o.C), time.Hour); err != nil {
+			// temporary entry (does not run out within the behaviour), permanent entry (duration 0),
+			// permanent range entry covering exactly this address
+			ip, d := r.w.IP(o.C), time.Duration(0)
+			switch o.How {
+			case "temp", "":
+				d = time.Hour
+			case "cidr":
+				ip += "/32"
+			}
+			if err := s.Blacklist(ip, d); err != nil {
 				return &fw.Trace{Status: fw.DriverError, Note: err.Error()}
 			}
-			ev = fw.Event{"ev": "Env", "k": "Blacklist", "c": o.C, "id": "none"}
+			ev = fw.Event{"ev": "Env", "k": "Blacklist", "c": o.C, "id": "none", "how": o.How}
+		case "Reload":
+			// restart / another node: the IPManager is re-created from the shared storage
+			s.ReloadIPManager()
+			ev = fw.Event{"ev": "Env", "k": "Reload", "c": "none", "id": "none"}
+		case "Corrupt":
+			cred := r.w.Cred(o.ID)
+			if cred == nil {
+				t.Note = fmt.Sprintf("stopped before step %d: Corrupt of an identity the server never issued", i+1)
+				break
+			}
+			if err := s.CorruptStoredSecret(cred.ID); err != nil {
+				return &fw.Trace{Status: fw.DriverError, Note: err.Error()}
+			}
+			ev = fw.Event{"ev": "Env", "k": "Corrupt", "c": "none", "id": o.ID}
 		case "Expire", "Bind":
 			cred := r.w.Cred(o.ID)
 			if cred == nil {
@@ -595,6 +626,8 @@ func main() {
 						Consts: map[string]string{"FIXES": fixes, "LEVEL": "6", "EMIT": `"all"`}},
 					{Name: "gen:transitions 3x3", Module: "Session", Cfg: "Session_c03t.cfg", Workers: 8,
 						Consts: map[string]string{"FIXES": fixes, "LEVEL": "4", "EMIT": `"all"`}},
+					{Name: "gen:env", Module: "Session", Cfg: "Session_c03env.cfg", Workers: 8,
+						Consts: map[string]string{"FIXES": fixes, "LEVEL": "5", "EMIT": `"all"`}},
 					{Name: "gen:simulate 3x3", Module: "Session", Cfg: "Session_c03t.cfg", Workers: 4, Simulate: "num=6000", Depth: 15, Seed: env.Seed,
 						Consts: map[string]string{"FIXES": fixes, "LEVEL": "14", "EMIT": `"last"`}},
 				})
@@ -602,15 +635,18 @@ func main() {
 			return []fw.TLCJob{
 				{Name: "gen:transitions 2x2", Module: "Session", Cfg: "Session_c03.cfg", Workers: 8,
 					Consts: map[string]string{"FIXES": fixes, "LEVEL": "5", "EMIT": `"all"`}},
+				{Name: "gen:env", Module: "Session", Cfg: "Session_c03env.cfg", Workers: 8,
+					Consts: map[string]string{"FIXES": fixes, "LEVEL": "4", "EMIT": `"all"`}},
 				{Name: "gen:simulate 2x2", Module: "Session", Cfg: "Session_c03.cfg", Workers: 4, Simulate: "num=600", Depth: 11, Seed: env.Seed,
 					Consts: map[string]string{"FIXES": fixes, "LEVEL": "10", "EMIT": `"last"`}},
 			}
 		},
-		MaxBeh: func(env *fw.Env) int {
+		// the environment-class configuration is driven completely; the big graphs are sampled
+		MaxBehSrc: func(env *fw.Env, src string) int {
 			if env.Tier == "thorough" {
-				return 80000
+				return map[string]int{"gen:transitions 2x2": 30000, "gen:transitions 3x3": 12000, "gen:simulate 3x3": 30000}[src]
 			}
-			return 6000
+			return map[string]int{"gen:transitions 2x2": 3500, "gen:simulate 2x2": 1500}[src]
 		},
 		ExtraBeh:    raceBehaviours,
 		Drive:       drive,
